@@ -17,6 +17,7 @@ LEVEL = "exploration"
 SHARDS = {"quick": 8, "thorough": 16}
 TIMEOUT = {"quick": 900, "thorough": 7200}
 REQUIRED = {"no_secret_leaf": 60, "public_unchanged": 60, "cli_paranoia": 4}
+ANCHORS = ["__main__:paranoia_mode", "paper_wallet:PaperWallet.generate"]
 RULE = ("wallets from all constructors x both networks x accounts/intervals as C06; passphrases empty or >= 12 chars with a "
         "non-Base58 marker; EVERY string (keys and values) at every nesting depth of paranoia_mode(generate(...)) is tested "
         "against the ground-truth secret set (reference model: mnemonic, passphrase, seed, master/account/row scalars, WIF x4, "
